@@ -302,3 +302,20 @@ func (s *Server) aofshrink() {
 		return
 	}
 }
+
+// restoreShrinkBackup completes an AOFSHRINK file swap that was interrupted
+// between its two renames: the live file has already been moved to
+// "<name>-bak" and the shrunken file is not yet in its place. Opening "<name>"
+// at start-up would then create an empty file and the server would come up
+// with an empty database although the complete log is sitting next to it.
+func restoreShrinkBackup(name string) error {
+	if _, err := os.Stat(name); !os.IsNotExist(err) {
+		return nil
+	}
+	if _, err := os.Stat(name + "-bak"); err != nil {
+		return nil
+	}
+	log.Warnf("%s is missing, restoring it from %s-bak "+
+		"(an AOFSHRINK was interrupted)", name, name)
+	return os.Rename(name+"-bak", name)
+}
